@@ -60,6 +60,19 @@ Proof.
   intros Hm. unfold cl. destruct (closing _); [exact Hm|]. apply logA_M. apply modc_M; [exact Hm|]. intros c. split; reflexivity.
 Qed.
 
+Lemma gsum_regauge c (a b : ident) l : forall g,
+  gsum c (fold_left (fun g c' => gadd (a, c') 1 (gadd (b, c') (-1) g)) l g) = gsum c g.
+Proof.
+  induction l as [|c' l IH]; intros g; cbn [fold_left]; [reflexivity|].
+  rewrite IH, !gsum_gadd. destruct (bytes_eqb c' c); lia.
+Qed.
+Lemma regauge_M q i s : M s -> M (regauge q i s).
+Proof.
+  intros [A B C D E F]. constructor; cbn; auto.
+  intros c. rewrite <- F. unfold regauge_g. destruct (ak (conns s q)) as [old|]; [|reflexivity].
+  destruct (bytes_eqb old i); [reflexivity|]. apply gsum_regauge.
+Qed.
+
 Section Metrics.
 Variable bname : bytes.
 Variable store : ident -> lookup.
@@ -159,7 +172,7 @@ Proof.
   - unfold sub. apply logA_M. apply sub_raw_M; assumption.
   - unfold unsub. apply logA_M. apply unsub_raw_M; assumption.
   - apply lostp_M; assumption.
-  - apply logA_M. apply modc_M; [exact Hm|]. intros c. split; reflexivity.
+  - apply logA_M. apply modc_M; [apply regauge_M; exact Hm|]. intros c. split; reflexivity.
   - unfold publish in H1.
     destruct G as (G0 & _).
     assert (G00 : Good0 (logA (APub p (akl (conns s p)) c d) s)).
